@@ -3,7 +3,9 @@ import HawkModel.Drv.Util
 /-! driver for the rex area (C06): ERE text -> `Re` (unverified parser for the generated subset), then the
 verified specification matcher `matchLL`.  Same line protocol as `harness/rex_h.c`:
 
-    M <flags> <notbol> <pattern>\t<subject>     ->  "st,len" | "-"        (flags: bit 0 = IGNORECASE; other bits are for the C harness)
+    M <flags> <eflags> <pattern>\t<subject>     ->  "st,len" | "-"        (flags: bit 0 = IGNORECASE, bit 2 = A mode
+                                                     answers for eflags 0..3; other bits are for the C harness;
+                                                     eflags: bit 0 = NOTBOL, bit 1 = NOTEOL)
     A <flags> <maxlen> <alphabet> <pattern>      ->  results for every subject over the alphabet of length
                                                      0..maxlen (length ascending, lexicographic) x notbol 0,1
                                                      joined by ';'
@@ -20,24 +22,77 @@ def takeNum : List Char → Nat → Bool → (Option Nat × List Char)
   | c :: r, acc, seen => if isDigit c then takeNum r (acc * 10 + (c.toNat - '0'.toNat)) true else (if seen then some acc else none, c :: r)
   | [], acc, seen => (if seen then some acc else none, [])
 
+def cclassOf (name : String) : Option CClass := match name with
+  | "alpha" => some .alpha | "digit" => some .digit | "upper" => some .upper
+  | "lower" => some .lower | "alnum" => some .alnum | "space" => some .space
+  | "blank" => some .blank | "punct" => some .punct | "xdigit" => some .xdigit
+  | "cntrl" => some .cntrl | "print" => some .print | "graph" => some .graph
+  | _ => none
+
+def hexVal (c : Char) : Option Nat :=
+  if '0' ≤ c && c ≤ '9' then some (c.toNat - 48)
+  else if 'a' ≤ c && c ≤ 'f' then some (c.toNat - 87)
+  else if 'A' ≤ c && c ≤ 'F' then some (c.toNat - 55)
+  else none
+
+/-- `\x` escape (TRE extension): `\xH`, `\xHH` or `\x{H…}` -/
+def parseHex (r : List Char) : P (Re × List Char) :=
+  match r with
+  | '{' :: r' =>
+    let ds := r'.takeWhile (· ≠ '}')
+    match r'.dropWhile (· ≠ '}') with
+    | '}' :: r'' =>
+      if ds.all (fun c => (hexVal c).isSome) then
+        .ok (Re.chr (Char.ofNat (ds.foldl (fun a c => a * 16 + (hexVal c).getD 0) 0)), r'')
+      else .error "EBRACE"
+    | _ => .error "EBRACE"
+  | a :: r' => match hexVal a with
+    | none => .error "hex escape without digits unsupported"
+    | some x => match r' with
+      | b :: r'' => match hexVal b with
+        | some y => .ok (Re.chr (Char.ofNat (x * 16 + y)), r'')
+        | none => .ok (Re.chr (Char.ofNat x), r')
+      | [] => .ok (Re.chr (Char.ofNat x), r')
+  | [] => .error "hex escape without digits unsupported"
+
+/-- backslash escapes TRE knows beyond POSIX (tre-parse.c `tre_macros`, assertions) -/
+def parseEscape (c : Char) (r : List Char) : P (Re × List Char) :=
+  let named (neg : Bool) (items : List ClsItem) : P (Re × List Char) := .ok (Re.cls neg items, r)
+  match c with
+  | 't' => .ok (Re.chr '\t', r) | 'n' => .ok (Re.chr '\n', r) | 'r' => .ok (Re.chr '\r', r)
+  | 'f' => .ok (Re.chr (Char.ofNat 12), r) | 'a' => .ok (Re.chr (Char.ofNat 7), r) | 'e' => .ok (Re.chr (Char.ofNat 27), r)
+  | 'w' => named false [.named .alnum, .chr '_'] | 'W' => named true [.named .alnum, .chr '_']
+  | 's' => named false [.named .space] | 'S' => named true [.named .space]
+  | 'd' => named false [.named .digit] | 'D' => named true [.named .digit]
+  | 'b' => .ok (Re.wordb .wb, r) | 'B' => .ok (Re.wordb .nwb, r)
+  | '<' => .ok (Re.wordb .bow, r) | '>' => .ok (Re.wordb .eow, r)
+  | 'x' => parseHex r
+  | 'Q' => .error "literal mode (\\Q) is outside the specification"
+  | _ => if isDigit c then .error "back-references are outside POSIX ERE (not regular): excluded"
+         else .ok (Re.chr c, r)
+
 /-- bracket expression body after `[` and the optional `^`; `first` = a `]` here is a literal -/
 partial def parseBracket (inp : List Char) (first : Bool) (acc : List ClsItem) : P (List ClsItem × List Char) :=
   match inp with
   | [] => .error "EBRACK"
   | ']' :: r => if first then parseBracket' ']' r acc else .ok (acc.reverse, r)
+  -- hawk (tre-parse.c "HAWK: handle \ as an escaper"), like gawk: a backslash quotes the next character inside [ ]
+  | '\\' :: c :: r => parseBracket r false (ClsItem.chr c :: acc)
   | '[' :: ':' :: r =>
     let name := String.ofList (r.takeWhile (· ≠ ':'))
     match r.dropWhile (· ≠ ':') with
     | ':' :: ']' :: r' =>
-      let k : Option CClass := match name with
-        | "alpha" => some .alpha | "digit" => some .digit | "upper" => some .upper
-        | "lower" => some .lower | "alnum" => some .alnum | _ => none
-      match k with
-      | some k => parseBracket r' false (ClsItem.named k :: acc)
-      | none => .error "named class unsupported"
+      match cclassOf name with
+      | some k => match r' with
+        | '-' :: c :: _ => if c == ']' then parseBracket r' false (ClsItem.named k :: acc) else .error "ERANGE"
+        | _ => parseBracket r' false (ClsItem.named k :: acc)
+      | none => .error "ECTYPE"
     | _ => .error "ECTYPE"
-  | '[' :: '.' :: _ => .error "collating symbol unsupported"
-  | '[' :: '=' :: _ => .error "equivalence class unsupported"
+  -- POSIX collating symbol / equivalence class of a single character (C locale): the character itself
+  | '[' :: '.' :: c :: '.' :: ']' :: r' => parseBracket' c r' acc
+  | '[' :: '=' :: c :: '=' :: ']' :: r' => parseBracket r' false (ClsItem.chr c :: acc)
+  | '[' :: '.' :: _ => .error "ECOLLATE"
+  | '[' :: '=' :: _ => .error "ECOLLATE"
   | c :: r => parseBracket' c r acc
 where
   parseBracket' (c : Char) (r : List Char) (acc : List ClsItem) : P (List ClsItem × List Char) :=
@@ -86,8 +141,7 @@ mutual
     | '.' :: r => .ok (Re.any, r)
     | '^' :: r => .ok (Re.bol, r)
     | '$' :: r => .ok (Re.eol, r)
-    | '\\' :: c :: r =>
-      if c.isAlphanum || c == '<' || c == '>' then .error "escape class unsupported" else .ok (Re.chr c, r)
+    | '\\' :: c :: r => parseEscape c r
     | '\\' :: [] => .error "EESCAPE"
     | '*' :: _ => .error "BADRPT"
     | '+' :: _ => .error "BADRPT"
@@ -97,6 +151,9 @@ mutual
 
   partial def parsePost (a : Re) (inp : List Char) : P (Re × List Char) :=
     match inp with
+    | '*' :: '?' :: _ => .error "minimal (non-greedy) repetition is a TRE extension: excluded"
+    | '+' :: '?' :: _ => .error "minimal (non-greedy) repetition is a TRE extension: excluded"
+    | '?' :: '?' :: _ => .error "minimal (non-greedy) repetition is a TRE extension: excluded"
     | '*' :: r => parsePost (Re.star a) r
     | '+' :: r => parsePost (Re.plus a) r
     | '?' :: r => parsePost (Re.opt a) r
@@ -142,7 +199,9 @@ def step (_ : Unit) (line : String) : Unit × String :=
       let (pat, subj) := splitAt '\t' r2
       match parseRe pat with
       | .error e => "PERR " ++ e
-      | .ok re => showRes (matchLL ⟨icaseOf ic, nb == ['1']⟩ re subj)
+      | .ok re =>
+        let ef := ((String.ofList nb).toNat?).getD 0
+        showRes (matchLL ⟨icaseOf ic, ef % 2 == 1, ef / 2 % 2 == 1⟩ re subj)
     | 'A' :: ' ' :: rest =>
       let (ic, r1) := splitAt ' ' rest
       let (ml, r2) := splitAt ' ' r1
@@ -154,11 +213,14 @@ def step (_ : Unit) (line : String) : Unit × String :=
         let icase := icaseOf ic
         let nobol := noBol re
         let subs := (List.range (maxlen + 1)).flatMap fun n => if n > 0 && alpha.isEmpty then [] else strs alpha n
+        let alleflags := (((String.ofList ic).toNat?).getD 0) / 4 % 2 == 1
         let res := subs.flatMap fun s =>
-          let r0 := showRes (matchLL ⟨icase, false⟩ re s)
+          let r0 := showRes (matchLL ⟨icase, false, false⟩ re s)
           -- `notbol_irrelevant_without_bol`: skip the second evaluation when the pattern has no `^`
-          let r1 := if nobol then r0 else showRes (matchLL ⟨icase, true⟩ re s)
-          [r0, r1]
+          let r1 := if nobol then r0 else showRes (matchLL ⟨icase, true, false⟩ re s)
+          if alleflags then
+            [r0, r1, showRes (matchLL ⟨icase, false, true⟩ re s), showRes (matchLL ⟨icase, true, true⟩ re s)]
+          else [r0, r1]
         joinWith ";" res
     | _ => "bad-op"
   ((), out)
